@@ -25,7 +25,8 @@
 (***************************************************************************)
 EXTENDS Glyf, Json, TLC
 
-CONSTANTS L1, L2, L3,     \* contour lengths used for glyphs of one, two, three contours
+CONSTANTS LongNs,         \* point counts of the long single-flag contours (repeat-count byte boundary 255/256)
+          L1, L2, L3,     \* contour lengths used for glyphs of one, two, three contours
           Variants,       \* coordinate variants
           TK2, TK3        \* indices (into TKs) of the transforms used at the levels of depth-2 / depth-3 trees
 
@@ -116,6 +117,11 @@ Cases ==
   \cup {SimpleCase(<<p, q, r>>, v, m) : p \in AllPats(L3), q \in AllPats(L3), r \in AllPats(L3),
                                         v \in Variants, m \in 1 .. Len(Modes)}
   \cup {[kind |-> "composite", pats |-> <<>>, v |-> 0, mode |-> 0, defs |-> d] : d \in CompDefs}
+  \* one contour of n on-curve points that all carry the same flag byte: the repeat count reaches 255 and the
+  \* run has to be split (v = n; modes 1 and 3: maximal runs / first flag plain then a repeated one)
+  \cup {[kind |-> "long", pats |-> <<>>, v |-> n, mode |-> m, defs |-> <<>>] : n \in LongNs, m \in {1, 3}}
+
+LongContour(n) == << [j \in 1 .. n |-> [x |-> j, y |-> 2 * j, on |-> TRUE]] >>
 
 ---------------------------------------------------------------------------
 \* ---- the glyph table of a case ------------------------------------------------
@@ -123,11 +129,14 @@ GlyphsOf(c) ==
   IF c.kind = "simple"
   THEN << [gid |-> 0, rec |-> <<>>],
           [gid |-> 1, rec |-> EncodeSimple(ContoursOf(c.pats, c.v), Modes[c.mode], InstrOf(c.v))] >>
+  ELSE IF c.kind = "long"
+  THEN << [gid |-> 0, rec |-> <<>>],
+          [gid |-> 1, rec |-> EncodeSimple(LongContour(c.v), Modes[c.mode], <<>>)] >>
   ELSE << [gid |-> 0, rec |-> <<>>],
           [gid |-> 1, rec |-> EncodeSimple(LeafA, Modes[1], <<>>)],
           [gid |-> 2, rec |-> EncodeSimple(LeafB, Modes[3], <<>>)] >>
        \o [k \in 1 .. Len(c.defs) |-> [gid |-> 2 + k, rec |-> EncodeComposite(c.defs[k])]]
-RootOf(c) == IF c.kind = "simple" THEN 1 ELSE 2 + Len(c.defs)
+RootOf(c) == IF c.kind \in {"simple", "long"} THEN 1 ELSE 2 + Len(c.defs)
 NumOf(c) == Len(GlyphsOf(c))
 
 Result(c) == Outline(GlyphsOf(c), NumOf(c), RootOf(c), 0, NoDev)
@@ -139,6 +148,12 @@ RoundTripOK(c) ==
   IF c.kind = "simple"
   THEN LET G == ParseGlyph(GlyphsOf(c)[2].rec) IN
        G.kind = "simple" /\ G.contours = ContoursOf(c.pats, c.v)
+  ELSE IF c.kind = "long"
+  THEN LET G == ParseGlyph(GlyphsOf(c)[2].rec) IN
+       /\ G.kind = "simple" /\ G.contours = LongContour(c.v)
+       \* the flag array really uses a repeat count of 255 when the run is long enough
+       /\ (c.v >= 257 => \E k \in 1 .. Len(GlyphsOf(c)[2].rec) - 1 :
+                            GlyphsOf(c)[2].rec[k + 1] = 255 /\ Bit(GlyphsOf(c)[2].rec[k], REPEAT))
   ELSE \A k \in 1 .. Len(c.defs) :
          LET G == ParseGlyph(GlyphsOf(c)[3 + k].rec) IN
          /\ G.kind = "composite" /\ Len(G.comps) = Len(c.defs[k])
@@ -229,7 +244,7 @@ DesignOK ==
   done =>
     /\ RoundTripOK(cs)
     /\ (cs.kind = "simple" => \A c \in {ToFine(ContoursOf(cs.pats, cs.v)[i]) : i \in 1 .. Len(cs.pats)} : ContourOK(c))
-    /\ (cs.kind = "simple" => LET r == Result(cs) IN
+    /\ (cs.kind \in {"simple", "long"} => LET r == Result(cs) IN
                               r.st = "ok" /\ r.exact /\ TracesOutline(r, RefCommands(r.cs)))
     /\ ChainOK(cs)
     /\ DepthOK(cs)
@@ -238,6 +253,8 @@ DesignOK ==
 Describe(c) ==
   IF c.kind = "simple"
   THEN [kind |-> "simple", pats |-> c.pats, v |-> c.v, mode |-> Modes[c.mode], defs |-> <<>>]
+  ELSE IF c.kind = "long"
+  THEN [kind |-> "long", pats |-> <<>>, v |-> c.v, mode |-> Modes[c.mode], defs |-> <<>>]
   ELSE [kind |-> "composite", pats |-> <<>>, v |-> 0, mode |-> NoMode, defs |-> c.defs]
 
 EmitCase ==
@@ -252,6 +269,8 @@ Next == ~done /\ done' = TRUE /\ cs' = cs
 Spec == Init /\ [][Next]_vars
 
 \* ---- constants for the configurations ---------------------------------------------
+LongQuick == {255, 256, 257, 258}
+LongThorough == {2, 255, 256, 257, 258, 259, 511, 512, 513, 514, 515, 770}
 L1All == 1 .. 5
 L2Quick == 1 .. 3
 L2Thorough == 1 .. 5
